@@ -38,7 +38,7 @@ ASSUMPTIONS = ["torch.Generator/np.random.SeedSequence are deterministic functio
 REAL_VS_STUB = {"real": ["torchsde.BrownianInterval/BrownianTree/ReverseBrownian", "trampoline", "numpy SeedSequence",
                          "torch kernels"],
                 "stub": ["value cache wrapped by FaultyCache (forwarding), one independent plan per replica"]}
-PROBES = ("pairs_compared", "expA", "expB", "expD", "expT", "thread_switches", "preemption_points", "expB_histories_differ", "expB_trees_differ", "probe_offgrid", "probe_with_A",
+PROBES = ("pairs_compared", "expA", "expB", "expD", "expT", "one_sided_pre_probe_ops", "thread_switches", "preemption_points", "expB_histories_differ", "expB_trees_differ", "probe_offgrid", "probe_with_A",
           "probe_with_U", "entropy_differs_checked", "tree_front", "reverse_front", "tiny_cache")
 STATE_MEASURE = "distinct pairs of final interval-tree shapes of the two replicas"
 
@@ -70,7 +70,7 @@ def gen_case(seed, tier, idx):
     dom = domain(cfg)
     ro = st.get("ops")
     sizes = [0, 1, 3, 8, 20, 50] if tier == "quick" else [0, 1, 3, 8, 20, 50, 200]
-    case = {"config": cfg, "exp": exp}
+    case = {"config": cfg, "exp": exp, "other_entropy": rc.randrange(3)}
     if exp == "D":
         ops = bm.gen_ops(ro, cfg, dom, max(2, ro.choice([3, 8, 20, 50])))
         bm.add_faults(st.get("faults"), ops, bm.gen_fault_rate(st.get("faults")))
@@ -110,6 +110,21 @@ def gen_case(seed, tier, idx):
             o.pop("faults", None)
             o.pop("rep", None)
             probes.append(o)
+        # one-sided ops in the probe phase: an op that only replica 1 sees right before a probe - with tol > 0 a
+        # near-duplicate of the probe (same resolved end points, slightly different exact times), otherwise any op
+        tol = xf(cfg["tol"])
+        for pr in probes:
+            if pr["op"] != "q" or rp.random() >= 0.3:
+                continue
+            if tol > 0 and rp.random() < 0.7:
+                a, b = xf(pr["ta"]), xf(pr["tb"])
+                a2 = min(max(a + tol * rp.choice([0.03, -0.03, 0.2, -0.2]), dom[0]), dom[1])
+                if a2 < b:
+                    pr["pre1"] = bm._q(a2, b, pr["U"], pr["A"], tag="near_dup", og=True)
+            else:
+                extra = bm.gen_ops(rp, cfg, dom, 1, {"uniform": 1})
+                if extra and extra[0]["op"] == "q":
+                    pr["pre1"] = extra[0]
         case.update(ops=ops, ops2=ops2, probes=probes)
     return case
 
@@ -338,6 +353,9 @@ def _run_case(case, keep_log=False):
             if case["ops"] != case["ops2"]:
                 probes["expB_histories_differ"] = 1
             for i, op in enumerate(case["probes"]):
+                if op.get("pre1"):
+                    _call(e1, op["pre1"], ("pre1", i), None)
+                    probes["one_sided_pre_probe_ops"] += 1
                 r1 = _call(e1, op, ("p", i), op.get("faults"))
                 r2 = _call(e2, op, ("p", i), None)
                 _same(r1, r2, op, i, "B")
@@ -350,7 +368,9 @@ def _run_case(case, keep_log=False):
                     if op["U"] and r1.get("U") is not None:
                         probes["probe_with_U"] += 1
         # C: another entropy gives another path (checked on the whole interval, or an interior piece if W is supplied)
-        other = bm.build(cfg, st.get("entropy3"), faults=False, entropy_override=(cfg["entropy"] + 1) % (2 ** 31 - 1))
+        # (the neighbouring seed, and seeds that differ only above bit 32 / bit 40)
+        e_other = [(cfg["entropy"] + 1) % (2 ** 31 - 1), cfg["entropy"] + 2 ** 32, cfg["entropy"] ^ (1 << 40)][case.get("other_entropy", 0) % 3]
+        other = bm.build(cfg, st.get("entropy3"), faults=False, entropy_override=e_other)
         e3 = bm.BMExec(other, log)
         d0, d1 = b1.dom
         mid = d0 + (d1 - d0) * 0.5
@@ -421,7 +441,7 @@ def sample_of(case, stats):
 def simplify(case):
     for key in OPS_KEYS:
         for i, op in enumerate(case[key]):
-            for f in ("faults", "faults2", "rep"):
+            for f in ("faults", "faults2", "rep", "pre1"):
                 if op.get(f):
                     c = copy.deepcopy(case)
                     c[key][i].pop(f)
